@@ -156,7 +156,7 @@ theorem pk_first_wins (rows : List Row) (k : Tbl × List Rat) :
 
 theorem pk_valid (rows : List Row) : ∀ r ∈ preclean rows, (pkOf r).isSome = true := by
   intro r hr
-  rcases mem_firstWins _ _ hr with h | ⟨_, _, h⟩
+  rcases mem_firstWins _ _ hr with h | ⟨_, _, _, h⟩
   · exact (List.mem_filter.1 h).2
   · cases h
 
@@ -194,25 +194,52 @@ theorem rack_effect_unique (l : List Row) (t : Rat) :
   rw [rack_effect_first_wins]
   exact toList_length_le_one _
 
+/-! ## what reaches the converter -/
+
+/-- Built types, groups, attributes, effects and buffs (and the skill requirement / ability rows) are exactly
+    the reachable rows of the prepared raw data: every supported item type and everything referenced
+    transitively is there, nothing unreferenced is. (The pre-conversion validators only touch dgmtypeattribs and
+    dgmtypeeffects rows.) -/
+theorem built_iff_reachable (raw : List Row) (r : Row)
+    (h1 : r.tbl ≠ .dgmtypeattribs) (h2 : r.tbl ≠ .dgmtypeeffects) :
+    r ∈ final raw ↔ r ∈ prepare raw ∧ Reachable (prepare raw) r := by
+  constructor
+  · intro h
+    rcases mem_preconv h with h | ⟨r0, _, ht, rfl⟩
+    · exact ⟨(clean_sublist _).subset h, (clean_minimal _ _).1 h⟩
+    · exact absurd ht h2
+  · exact fun h => preconv_keeps ((clean_minimal _ _).2 h.2) h1 h2
+
+/-- Every type attribute / type effect row the converter sees is a reachable row (possibly with its surplus
+    default flag cleared). -/
+theorem final_from_reachable (raw : List Row) : ∀ s ∈ final raw,
+    ∃ s0 ∈ prepare raw, Reachable (prepare raw) s0 ∧ (s = s0 ∨ s = demote s0) := by
+  intro s hs
+  rcases mem_preconv hs with h | ⟨r0, h, _, rfl⟩
+  · exact ⟨s, (clean_sublist _).subset h, (clean_minimal _ _).1 h, Or.inl rfl⟩
+  · exact ⟨r0, (clean_sublist _).subset h, (clean_minimal _ _).1 h, Or.inr rfl⟩
+
 /-! ## nothing dangling -/
 
 /-- No built object references an attribute, effect, type, group or buff that exists in the raw data but was
     dropped: whatever id a row of the converter's input puts into an id slot (`specConvRefs`: group of a type,
     attribute ids of type attributes, effect ids of type effects, skill types, max attribute, the seven effect
-    attributes, modifier ids, buff modifier ids), every row of the prepared raw data with that id is itself in
-    the converter's input. -/
+    attributes, modifier ids, buff modifier ids) or carries as the value of an autocharge / warfare-buff attribute
+    (`specValueRefs`), every row of the prepared raw data with that id is itself in the converter's input. -/
 theorem no_dangling_after_convert (raw : List Row) :
-    ∀ s ∈ final raw, ∀ tv ∈ refTargets specConvRefs s, ∀ r ∈ prepare raw, hits r tv = true → r ∈ final raw := by
+    ∀ s ∈ final raw, ∀ tv ∈ refTargets (specConvRefs ++ specValueRefs) s, ∀ r ∈ prepare raw,
+      hits r tv = true → r ∈ final raw := by
   intro s hs tv htv r hr hhit
-  obtain ⟨s0, hs0, heq⟩ := preconv_origin hs
+  obtain ⟨s0, hs0, heq⟩ := preconv_origin (refs := specConvRefs ++ specValueRefs) (by decide) hs
   rw [heq] at htv
+  have hcover : ∀ c ∈ specConvRefs ++ specValueRefs, c ∈ specRefs := by decide
   have hedge : refEdge specRefs s0 r = true :=
-    List.any_eq_true.2 ⟨tv, refTargets_mono spec_refs_cover_converter s0 tv htv, hhit⟩
+    List.any_eq_true.2 ⟨tv, refTargets_mono hcover s0 tv htv, hhit⟩
   have hr' : r ∈ clean (prepare raw) := clean_closed _ s0 hs0 r hr (Or.inl hedge)
   obtain ⟨ρ, hρ, htgt⟩ := refTargets_tgt htv
   have htbl : r.tbl = ρ.tgt := by
     have := hhit; simp only [hits, Bool.and_eq_true, decide_eq_true_eq] at this; rw [this.1, htgt]
-  have hent : ∀ ρ ∈ specConvRefs, ρ.tgt ≠ .dgmtypeattribs ∧ ρ.tgt ≠ .dgmtypeeffects := by decide
+  have hent : ∀ ρ ∈ specConvRefs ++ specValueRefs, ρ.tgt ≠ .dgmtypeattribs ∧ ρ.tgt ≠ .dgmtypeeffects := by decide
   exact preconv_keeps hr' (htbl ▸ (hent ρ hρ).1) (htbl ▸ (hent ρ hρ).2)
 
 /-! ## non-vacuity -/
@@ -243,6 +270,12 @@ example : (final ex).map (fun r => (r.tbl, r.pos)) =
   decide +kernel
 
 example : ((clean (prepare ex)).filter fun r => r.tbl = .dgmtypeeffects).length = 2 := by decide +kernel
+
+/-- The ammo row of the ship carries two ids: attribute 127 and (by value, `int(2.0)`) type 2. -/
+example : (final ex).flatMap (refTargets (specConvRefs ++ specValueRefs)) =
+    [(.evegroups, .num 5 true), (.evegroups, .num 6 true), (.dgmattribs, .num 127 true), (.evetypes, .num 2 true),
+     (.dgmeffects, .num 12 true)] := by
+  decide +kernel
 
 /-- Duplicate and non-Integral keys: the first row wins, the string-keyed row goes. -/
 example : (preclean
